@@ -181,6 +181,11 @@ def unit_sql_fields():
 KEYWORD_SPOT = {"ANSI": "select table order group year level key user date value", "DB2": "index plan cluster select table order group year comment key user value type label summary",
                 "Transact-SQL": "file index top percent plan select table order group key user", "PL/SQL": "index cluster nowait mode share select table order group year level comment date value type hash"}
 
+# reserved words a dialect's vendor lists with a footnote mark (IBM's Db2 table prints 'FIRST 1', 'SYSDATE 1', 'END-EXEC 2'): reserved all the same; other dialects may or may not reserve them
+KEYWORD_ALSO = {"DB2": "first last next old prior sysdate systimestamp currval organization period end-exec"}
+# real keywords that end in a digit (Oracle): every other entry 'word<digit>' of a keyword table is a footnote mark glued to the word
+KEYWORDS_ENDING_IN_A_DIGIT = {"like2", "like4", "sb1", "sb2", "sb4", "ub1", "ub2", "ub4", "varchar2", "nvarchar2", "utf8", "int1", "int2", "int4", "int8", "float4", "float8"}
+
 
 def unit_is_keyword():
     def make(ctx):
@@ -197,8 +202,10 @@ def unit_is_keyword():
                 return Sym(BOOL, lift(st.ghost["__result__"]).z == z3.Or(*[low == k for k in sorted(kws)]))
             def spot(ex, st, d=d):
                 kws = set(st.heap[st.ghost["this"].oid]["_keywords"]); allw = set(" ".join(KEYWORD_SPOT.values()).split()); mine = set(KEYWORD_SPOT[d].split())
-                return Sym(BOOL, z3.BoolVal(mine <= kws and not ((allw - mine) & kws)))
-            out.append({"contract": Contract("sql.AnsiSqlDialect.is_keyword", setup, returns=[Clause(spot, "the-keyword-set-the-constructor-builds-is-this-dialect's:-it-holds-the-dialect's-reserved-words-of-the-spot-list-and-none-reserved-only-elsewhere", props=["C19"]), Clause(post, "a-name-is-a-keyword-iff-its-lower-case-form-is-in-the-dialect's-keyword-set-(SQL-keywords-are-case-insensitive)", props=["C19"])],
+                import re as _re
+                also = set(KEYWORD_ALSO.get(d, "").split()); glued = {k for k in kws if _re.fullmatch(r".*[a-z][0-9]+", k)} - KEYWORDS_ENDING_IN_A_DIGIT
+                return Sym(BOOL, z3.BoolVal(mine <= kws and not ((allw - mine) & kws) and also <= kws and not glued))
+            out.append({"contract": Contract("sql.AnsiSqlDialect.is_keyword", setup, returns=[Clause(spot, "the-keyword-set-the-constructor-builds-is-this-dialect's:-it-holds-the-dialect's-reserved-words-of-the-spot-lists-none-reserved-only-elsewhere-and-no-word-with-a-footnote-digit-glued-to-it", props=["C19"]), Clause(post, "a-name-is-a-keyword-iff-its-lower-case-form-is-in-the-dialect's-keyword-set-(SQL-keywords-are-case-insensitive)", props=["C19"])],
                                              raises={}, expect=["return"], n_loops=0, modifies=[]), "label": d})
         return out
     return ProofUnit("sql.is_keyword", "is_keyword of the four dialects: case-insensitive membership in the dialect's keyword set (set built by the real constructor)", ["C19"], make, None, timeout=900)
@@ -295,9 +302,45 @@ def unit_c19_table():
             ddl = sql.SqlFactory(cid, "t", sql.SQL_NAME_TO_DIALECT_MAP[d]).create_table_statement()
             names = [l.strip().split(" ")[0] for l in ddl.splitlines()[1:-1]]
             want = [('"%s"' % n) if n.lower() in SPOT[d].split() else n for n in [(w.title() if i % 3 == 0 else w) for i, w in enumerate(WORDS)]]
+            # words the vendor lists with a footnote mark are quoted as well
+            also = KEYWORD_ALSO.get(d, "").replace("end-exec", "").split()
+            if also:
+                cid2 = interface.create_cid_from_string("d,format,delimited\n" + "".join("f,%s,,x,,Text\n" % w for w in also))
+                got2 = [l.strip().split(" ")[0] for l in sql.SqlFactory(cid2, "t", sql.SQL_NAME_TO_DIALECT_MAP[d]).create_table_statement().splitlines()[1:-1]]
+                if got2 != ['"%s"' % w for w in also]: return {"expected": "%s quotes %r" % (d, also), "observed": got2}
             return None if names == want else {"expected": "%s quotes exactly its reserved words: %r" % (d, [n for n in want if n.startswith('"')]), "observed": [n for n in names if n.startswith('"')]}
         res.append(sweep("C19/table/reserved words of each dialect (spot list from the vendors' documentation) are quoted, other names are not", shape_cases(), spot_check, "bounded",
                          "%d field names (30 reserved in some dialect but not in others, 3 reserved nowhere; mixed case) x 4 dialects" % len(WORDS), function="sql.SqlFactory + dialect keyword tables", unit="C19.table"))
+        # the command line's --create writes the same statement whatever container the CID is stored in (csv, ods, xlsx)
+        def create_cases():
+            for ext in ("csv", "ods", "xlsx"): yield ext
+        def create_check(ext):
+            import tempfile, shutil, contextlib, io, os, logging
+            from cutplace import interface, sql, applications
+            from .rowio_ods import encode_ods, write_ods
+            rows = [r.split(",") for r in SHAPE_CID.replace('"aa,bb"', "aa;bb").strip().split("\n")]
+            rows = [[c.replace("aa;bb", "aa,bb") for c in r] for r in rows]
+            tmp = tempfile.mkdtemp(prefix="vf_c19_")
+            try:
+                p = os.path.join(tmp, "customers." + ext)
+                if ext == "csv":
+                    import csv
+                    with open(p, "w", newline="", encoding="utf-8") as f: csv.writer(f).writerows(rows)
+                elif ext == "ods": write_ods(p, encode_ods([rows], set()))
+                else:
+                    import xlsxwriter
+                    wb = xlsxwriter.Workbook(p); ws = wb.add_worksheet(); [ws.write_string(y, x, v) for y, r in enumerate(rows) for x, v in enumerate(r)]; wb.close()
+                cid = interface.Cid(p); want = sql.SqlFactory(cid, "customers").create_table_statement()
+                logging.getLogger("cutplace").setLevel(logging.CRITICAL)
+                with contextlib.redirect_stderr(io.StringIO()), contextlib.redirect_stdout(io.StringIO()):
+                    rc = applications.main(["cutplace", "--create", p])
+                out = os.path.join(tmp, "customers_create.sql")
+                if rc != 0 or not os.path.exists(out): return {"expected": "exit code 0 and customers_create.sql", "observed": "exit code %r, file written: %s" % (rc, os.path.exists(out))}
+                got = open(out, encoding="utf-8").read()
+                return None if got == want else {"expected": want, "observed": got}
+            finally: shutil.rmtree(tmp, ignore_errors=True)
+        res.append(sweep("C19/cli/--create writes the statement of the CID whatever container it is stored in", create_cases(), create_check, "bounded", "the shape CID stored as csv, ods and xlsx",
+                         function="sql.write_create / applications.process", unit="C19.table", props=["C19", "C17"]))
         # K-8 witnesses
         w = []
         try:
